@@ -9,8 +9,12 @@ ID = 'C03'
 GENS = ['units', 'consts']
 TARGETS = ['BC.Props.C03']
 PROP_FILES = ['BC/Props/C03.lean', 'BC/Lemmas/C03.lean', 'BC/Lemmas/C03Ex.lean']
+# source ties: function bodies regenerated from the Python source by translate/t_funcs.py, proved equal to the model functions
+SRC = {'module': 'BC.Props.C03Src', 'file': 'BC/Props/C03Src.lean', 'lemma_files': ['BC/Lemmas/SrcFilter.lean'],
+       'theorems': ['C03_src_filter_init', 'C03_src_should_record', 'C03_src_check_next_time', 'C03_src_skip_loop']}
 THEOREMS = ['C03_rows_exact', 'C03_loop_exit_no_record', 'C03_time_step_records', 'C03_default_step']
 STATEMENTS = {
+    'C03_src_should_record': 'SOURCE TIE (all C03_src_*): _TrajectoryDataFilter.__init__/should_record/check_next_time and the skip loop, executed symbolically from the Python source on every run (attribute stores collected into the new filter state, check_zero_crossing/check_mach_crossing composed), equal TFilter.init / TFilter.shouldRecord of the model for every filter state and input',
     'C03_rows_exact': 'for EVERY state sequence moving forward with per-step advance <= min(calc_step, step) (any physics), 0 < step <= range: a completed plain '
                       'request returns exactly the rows at 0, step, ..., K*step, one each, in order, flag RANGE, with range < (K+1)*step and K*step <= range + '
                       'min(calc_step, step); times strictly increase; row 0 is the muzzle state',
